@@ -68,7 +68,7 @@ def check_dispatch(run, r):
 
 
 def model_outcomes(guard: str):
-    r = tlc.run("PyConfig", cfg_text({"FlushGuard": f'"{guard}"'}, ("NoSilentDrop", "RefusesForbidden", "PrintOutcome", "PrintDispatch")).replace(" <- ", " = "),
+    r = tlc.run("PyConfig", cfg_text({"FlushGuard": f'"{guard}"'}, ("NoSilentDrop", "RefusesForbidden", "OneFramePerGraph", "PrintOutcome", "PrintDispatch")).replace(" <- ", " = "),
                 workers=1, timeout=600)
     return r
 
@@ -119,12 +119,17 @@ def main(tier: str) -> int:
         env.machinery_failure(f"C06: PyConfig (FlushGuard=always) {r.violated or r.errors[:2]}")
     dispatch_points = check_dispatch(run, r)
     outcomes = [json.loads(p) for p in r.printed("OUTCOME")]
-    if len(outcomes) != 2016:
-        env.machinery_failure(f"C06: expected 2016 lattice points from TLC, got {len(outcomes)}")
+    if len(outcomes) != 2016 + 336:
+        env.machinery_failure(f"C06: expected 2352 lattice points from TLC, got {len(outcomes)}")
     by_key = {}
+    by_key2 = {}        # an rdflib Dataset with two graphs handed to a TripleStream (ngraphs = 2)
     for o in outcomes:
         c = o["cfg"]
-        by_key[(c["sclass"], c["lt"], c["delimited"], c["fs"], c["flow"], c["nsinks"])] = o
+        if c["ngraphs"] == 2:
+            by_key2[(c["lt"], c["delimited"], c["fs"], c["flow"])] = o
+        else:
+            by_key[(c["sclass"], c["lt"], c["delimited"], c["fs"], c["flow"], c["nsinks"])] = o
+    outcomes = [o for o in outcomes if o["cfg"]["ngraphs"] == 1]
     cases, traces = [], []
 
     def add(key, rp, model_raises, fn, items, mode):
@@ -213,6 +218,16 @@ def main(tier: str) -> int:
                 return impl.serialize(cfg, quads), delimited, None, None
 
             add(key, {"cfg": cfg, "statements": quads}, False, fn_ds, triples, "set")
+            # the frames PyConfig predicts for two graphs of two statements each (ngraphs = 2), on a Dataset shaped like that
+            o2 = by_key2[(lt, delimited, 2, "inferred")]
+            q2 = [(I(f"http://e/s{k}"), I("http://e/p"), I(f"http://e/o{k}"), g_) for k, g_ in enumerate([G1, G1, I("http://g/3"), I("http://g/3")])]
+            try:
+                d2 = impl.serialize(cfg, q2)
+                nfr = len([f_ for f_ in wire.dec_stream(d2, delimited=delimited)]) if delimited else 1
+                if delimited and not o2["raised"] and nfr != o2["frames"]:
+                    FLOW_DRIFT.append(f"Dataset of two graphs through TripleStream, lt {lt}: PyConfig predicts {o2['frames']} frames, the code wrote {nfr}")
+            except Exception:  # noqa: BLE001
+                pass
     # an unbuffered output that takes only part of what it is offered (a raw socket file, a pipe): the call must raise or everything must arrive
     import io as _io  # noqa: PLC0415
 
